@@ -19,11 +19,12 @@ package proto
 //@ iface gen.CompressionType.ID
 //@ func (t gen.CompressionType) ID
 //@   trusted
+//@ spec func poolWF(c *connection) bool = forall i int :: 0 <= i && i < len(c.pool) ==> c.pool[i] != nil
 //@ func (c *connection) send
 //@   props C12 C13
 //@   modifies buf.B
 //@   requires [frame] buf != nil && len(buf.B) >= 8 && buf.B[7] != protoMessageZ
-//@   requires [pool] forall i int :: 0 <= i && i < len(c.pool) ==> c.pool[i] != nil
+//@   requires [pool] poolWF(c)
 //@   at call Write assert [size_limit] c.peer_maxmessagesize > 0 ==> len(p) <= c.peer_maxmessagesize
 //@   at call Write assert [link_of_order] order != 0 ==> pi == c.pool[int(order) % len(c.pool)]
 //@   at call Write assert [frame_header] len(p) >= 8 && (p[7] == protoMessageZ ==> p[0] == protoMagic && p[1] == protoVersion && u32be(p, 2) == uint32(len(p)) && p[6] == old(buf.B[6]))
@@ -32,6 +33,7 @@ package proto
 //@   ensures [no_link] len(c.pool) == 0 && (c.peer_maxmessagesize == 0 || old(len(buf.B)) <= c.peer_maxmessagesize) && !compression.Enable ==> result == gen.ErrNoConnection
 
 //@ func (c *connection) SendPID
+//@   requires [pool] poolWF(c)
 //@   props C13 C12 C14
 //@   at call send assert [order_nonzero] options.KeepNetworkOrder ==> order != 0 && buf.B[6] != 0
 //@   at call send assert [order_of_ids] order == orderOf(from.ID, options.KeepNetworkOrder) && buf.B[6] == orderOf(to.ID, options.KeepNetworkOrder)
@@ -40,6 +42,7 @@ package proto
 //@   ensures [incarnation] to.Creation != c.peer_creation ==> result == gen.ErrProcessIncarnation
 
 //@ func (c *connection) CallPID
+//@   requires [pool] poolWF(c)
 //@   props C13 C12 C14 C07
 //@   at call send assert [order_nonzero] options.KeepNetworkOrder ==> order != 0 && buf.B[6] != 0
 //@   at call send assert [order_of_ids] order == orderOf(from.ID, options.KeepNetworkOrder) && buf.B[6] == orderOf(to.ID, options.KeepNetworkOrder)
@@ -49,6 +52,7 @@ package proto
 //@   ensures [incarnation] to.Creation != c.peer_creation ==> result == gen.ErrProcessIncarnation
 
 //@ func (c *connection) SendAlias
+//@   requires [pool] poolWF(c)
 //@   props C13 C12 C14
 //@   at call send assert [order_nonzero] options.KeepNetworkOrder ==> order != 0 && buf.B[6] != 0
 //@   at call send assert [order_of_ids] order == orderOf(from.ID, options.KeepNetworkOrder) && buf.B[6] == orderOf(to.ID[1], options.KeepNetworkOrder)
@@ -57,6 +61,7 @@ package proto
 //@   ensures [incarnation] to.Creation != c.peer_creation ==> result == gen.ErrProcessIncarnation
 
 //@ func (c *connection) CallAlias
+//@   requires [pool] poolWF(c)
 //@   props C13 C12 C14 C07
 //@   at call send assert [order_nonzero] options.KeepNetworkOrder ==> order != 0 && buf.B[6] != 0
 //@   at call send assert [order_of_ids] order == orderOf(from.ID, options.KeepNetworkOrder) && buf.B[6] == orderOf(to.ID[1], options.KeepNetworkOrder)
